@@ -278,7 +278,7 @@ def rust_type(ty):
     raise ValueError(ty)
 
 
-def parser_binding(i, text, probe=True):
+def parser_binding(i, text, probe=True, force_back=False):
     """`{ parse_direction := …, yielded_last_split := …, start_offset := n, str := [bytes] }` ->
     `Parser::with_start_offset(str, n)`; only the state that constructor builds (direction FromStart, the split flag
     unset), a UTF-8 remainder, and `start_offset + len < 2^32` (the bound of the equivalence theorems: past it the
@@ -295,7 +295,7 @@ def parser_binding(i, text, probe=True):
     # the public API cannot build is moved to the nearest one it can build — direction FromEnd through `.skip_back(0)`
     # (sets the direction, changes nothing else), FromBoth and a set split flag fall back to the constructor's state;
     # the std side of those entries is written for exactly the parser that is built here
-    back = (not probe) and d[1].endswith("ParseDirection.FromEnd")
+    back = (not probe) and (force_back or d[1].endswith("ParseDirection.FromEnd"))
     bs, off = v.get("str"), v.get("start_offset")
     if not isinstance(bs, list) or not all(isinstance(b, int) and b < 256 for b in bs) or not _valid_utf8(bs):
         return None
@@ -331,9 +331,9 @@ def rust_binding(kind, i, text):
     if kind == "errkind":      # `Extracted.ErrorKind.Strip` -> konst::parsing::ErrorKind::Strip
         m = re.fullmatch(r"\s*(?:Extracted0?\.)?ErrorKind\.(\w+)\s*", text)
         return m and f"let a{i}: konst::parsing::ErrorKind = konst::parsing::ErrorKind::{m.group(1)};"
-    if kind in ("parser", "parser_any"):
+    if kind in ("parser", "parser_any", "parser_any_back"):
         try:
-            return parser_binding(i, text, probe=(kind == "parser"))
+            return parser_binding(i, text, probe=(kind == "parser"), force_back=(kind == "parser_any_back"))
         except ValueError:
             return None
     if kind in ("bytes", "bytes_mut", "str", "chars"):
@@ -437,6 +437,7 @@ def replay_on_implementation(cex, workdir):
     m = _load_map()
     blocks, kept = [], []
     auto = cmp_auto_entries()
+    cex = list(cex)
     for c in cex:
         ent = m.REPLAY.get(c["fn"]) or auto.get(c["fn"])
         if not ent:
@@ -445,6 +446,12 @@ def replay_on_implementation(cex, workdir):
         skip = ent[3] if len(ent) > 3 else None
         if len(kinds) != len(c["args"]):
             continue
+        if "parser_any" in kinds and not c.get("_variant"):
+            # the same input once more with the parser working from the end (`.skip_back(0)`): the Lean state's direction
+            # is only a hint, both directions are real runs of the real code
+            cex.append(dict(c, _variant="back"))
+        if c.get("_variant") == "back":
+            kinds = ["parser_any_back" if k == "parser_any" else k for k in kinds]
         binds = [rust_binding(k, i, a) for i, (k, a) in enumerate(zip(kinds, c["args"]))]
         if any(b is None for b in binds):
             continue
